@@ -93,7 +93,7 @@ def slice(ctx: fw.Ctx) -> fw.Outcome:
         R = gen.render(src, rng, prof, garbage=False)
         present = sorted({(t.inst, t.diff) for t in src.tracks})
         sel = rng.sample(present, rng.randint(1, len(present))) + ([(rng.randrange(10), rng.randrange(4))] if rng.random() < 0.5 else [])
-        w = impl.want_arg(sel)
+        w = list(impl.want_arg(sel))  # this family's own list: nobody but the library could change it
         before = list(w)
         dumps = []
         for k in range(3):
@@ -118,6 +118,31 @@ def slice(ctx: fw.Ctx) -> fw.Outcome:
             if got_keys != want_keys or empties:
                 out.violation("keys-" + fw.h([R.text, sel2]), f"selection {sel2}: the track map has entries for instruments {got_keys} (empty: {empties}), selected and present: {want_keys}",
                               {"op": "keys", "text": R.text, "want": sel2, "keys": want_keys}, observed=got_keys, promised=want_keys)
+                break
+        # one list object edited in place between parses, and brand-new lists built and dropped in turn (a freed list's address goes to the
+        # next one): every parse returns what *this* selection selects
+        ins_, dif_ = impl.enums()
+        selA = sel
+        selB = [p_ for p_ in present if p_ not in sel][:2] + sel[:1] if len(present) > 1 else sel[:0]
+        mine = []
+        for k in range(ctx.n(12, 40)):
+            cur = selA if k % 2 == 0 else selB
+            if k < 4:
+                mine[:] = [(ins_[i], dif_[d]) for i, d in cur]
+                arg = mine
+            else:
+                arg = [(ins_[i], dif_[d]) for i, d in cur]
+            try:
+                c3 = Chart.from_file(io.StringIO(R.text, newline=""), want_tracks=arg)
+            except Exception:  # noqa: BLE001
+                break
+            del arg
+            got3 = sorted((ins_.index(i), dif_.index(d)) for i, dd in c3.instrument_tracks.items() for d in dd)
+            want3 = sorted(set(map(tuple, cur)) & set(present))
+            if got3 != want3:
+                out.violation("turns-" + fw.h([R.text, selA, selB, k]), f"selections {selA} and {selB} given in turn ({'one list edited in place' if k < 4 else 'new lists, each dropped after its parse'}): "
+                              f"parse #{k} with {cur} returned tracks {got3}, selected and present: {want3}", {"op": "turns", "text": R.text, "A": selA, "B": selB, "present": present},
+                              observed=got3, promised=want3)
                 break
         if list(w) != before:
             out.violation("reuse-" + fw.h(rp), f"parsing with want_tracks={sel} changed the caller's list to {len(w)} entries", rp,
@@ -215,6 +240,25 @@ def slice(ctx: fw.Ctx) -> fw.Outcome:
 
 
 def replay(ctx, data):
+    if data.get("op") == "turns":
+        import io
+        from chartparse.chart import Chart
+        ins_, dif_ = impl.enums()
+        present = [tuple(x) for x in data["present"]]
+        mine = []
+        for k in range(60):
+            cur = [tuple(x) for x in (data["A"] if k % 2 == 0 else data["B"])]
+            if k < 4:
+                mine[:] = [(ins_[i], dif_[d]) for i, d in cur]
+                arg = mine
+            else:
+                arg = [(ins_[i], dif_[d]) for i, d in cur]
+            c3 = Chart.from_file(io.StringIO(data["text"], newline=""), want_tracks=arg)
+            del arg
+            got3 = sorted((ins_.index(i), dif_.index(d)) for i, dd in c3.instrument_tracks.items() for d in dd)
+            if got3 != sorted(set(cur) & set(present)):
+                return True, f"parse #{k}: {got3}"
+        return False, "every parse returned its own selection"
     if data["op"] == "reuse":
         from chartparse.chart import Chart
         import io
